@@ -776,6 +776,8 @@ class AnimalSpecies:
 
         NE_required = self.NE_balance.kcals
         if NE_required == 0:
+            # nothing is required (e.g. the herd is empty): the whole herd counts as fed
+            self.population_fed = self.current_population
             return grass_input, feed_input
 
         # Calculate NE from grass, if ruminant, else 0
@@ -807,9 +809,11 @@ class AnimalSpecies:
                 # If feed is also not enough, feed as much as possible
                 feed_input.kcals = 0
                 NE_provided = NE_from_grass + NE_from_feed
+                # fraction of the full requirement that was delivered (taken before the balance is reduced)
+                fraction_of_requirement_met = NE_provided / self.NE_balance.kcals
                 self.NE_balance.kcals -= NE_provided
                 self.population_fed = round(
-                    (NE_provided / self.NE_balance.kcals) * self.current_population
+                    fraction_of_requirement_met * self.current_population
                 )
 
         return grass_input, feed_input
